@@ -2,6 +2,7 @@ package snowflake_proxy
 
 import (
 	"net"
+	"sync"
 	"testing"
 	"time"
 
@@ -37,7 +38,8 @@ func TestSFReplayTwoDataChannels(t *testing.T) {
 	<-done
 	dataChan := make(chan struct{})
 	handled := make(chan struct{}, 4)
-	pc, err := sf.makePeerConnectionFromOffer(client.LocalDescription(), webrtc.Configuration{}, dataChan,
+	var claim sync.Once
+	pc, err := sf.makePeerConnectionFromOffer(client.LocalDescription(), webrtc.Configuration{}, dataChan, &claim,
 		func(conn *webRTCConn, remoteAddr net.Addr) { handled <- struct{}{} })
 	if err != nil {
 		t.Fatal(err)
